@@ -10,8 +10,8 @@ ASSUMPTIONS = [
 
 def run(ctx):
     quick = ctx["tier"] == "quick"
-    runs = [("seq", 250 if quick else 4000, 40, 10, []),
-            ("par", 250 if quick else 4000, 40, 11, []),
+    runs = [("seq", 250 if quick else 20000, 40, 10, []),
+            ("par", 250 if quick else 20000, 40, 11, []),
             ("data", 1, 20000 if quick else 0, 0, [])]
     r = codec.run_art("C02", ctx, runs)
     def search():
